@@ -14,7 +14,7 @@ Qed.
 
 Definition red (S : N) : N := oc_reduce 8 S.
 
-Lemma csum_partial_red l : csum_partial l = red (wsum l).
+Lemma csum_partial_red l : csum_partial l = red (wsum l mod 18446744073709551616).
 Proof. unfold csum_partial, red. rewrite csum_words_wsum. reflexivity. Qed.
 
 Lemma oc_step_inv s : (s mod 65536 + s / 65536) mod 65535 = s mod 65535 /\ (s mod 65536 + s / 65536 = 0 <-> s = 0).
@@ -48,6 +48,22 @@ Qed.
 Lemma red_spec S : S < 281474976710656 ->
   red S <= 65535 /\ red S mod 65535 = S mod 65535 /\ (red S = 0 <-> S = 0).
 Proof. intros H. split; [apply red_bound, H|]. apply oc_reduce_inv. Qed.
+
+(** whatever the list, the partial sum the code returns fits 16 bits *)
+Lemma csum_partial_lt l : csum_partial l < 65536.
+Proof.
+  rewrite csum_partial_red. assert (H : wsum l mod 18446744073709551616 < 18446744073709551616) by (apply N.mod_lt; lia).
+  revert H. generalize (wsum l mod 18446744073709551616). intros S H. unfold red. cbn [oc_reduce].
+  destruct (S <? 65536) eqn:E0; [lia|].
+  set (s1 := S mod 65536 + S / 65536). assert (B1 : s1 < 281474976776192) by (unfold s1; lia).
+  destruct (s1 <? 65536) eqn:E1; [lia|].
+  set (s2 := s1 mod 65536 + s1 / 65536). assert (B2 : s2 < 4295032832) by (unfold s2; lia).
+  destruct (s2 <? 65536) eqn:E2; [lia|].
+  set (s3 := s2 mod 65536 + s2 / 65536). assert (B3 : s3 < 131073) by (unfold s3; lia).
+  destruct (s3 <? 65536) eqn:E3; [lia|].
+  set (s4 := s3 mod 65536 + s3 / 65536). assert (B4 : s4 < 65536) by (unfold s4; lia).
+  destruct (s4 <? 65536) eqn:E4; lia.
+Qed.
 
 Lemma wsum_app_even a b : Nat.even (length a) = true -> wsum (a ++ b) = wsum a + wsum b.
 Proof.
